@@ -22,11 +22,8 @@ func VerifC14ParseTag(s, prefix string, env map[string]string) (route, opts stri
 }
 
 // VerifC14MakeConfig runs ServiceMonitor.makeConfig for the given passing checks; the catalog is whatever
-// the Consul HTTP API at cfg.Addr answers (the harness points it at an httptest fake).
-func VerifC14MakeConfig(cfg *config.Consul, dc string, passing []*api.HealthCheck) (string, error) {
-	c, err := api.NewClient(&api.Config{Address: cfg.Addr, Scheme: cfg.Scheme})
-	if err != nil {
-		return "", err
-	}
-	return NewServiceMonitor(c, cfg, dc).makeConfig(passing), nil
+// the Consul HTTP API behind the client answers (the harness points it at an httptest fake and reuses one
+// client, i.e. one connection pool, for all cases).
+func VerifC14MakeConfig(c *api.Client, cfg *config.Consul, dc string, passing []*api.HealthCheck) string {
+	return NewServiceMonitor(c, cfg, dc).makeConfig(passing)
 }
